@@ -590,6 +590,9 @@ class Batch:
             outs = self.ctx.driver.ask(self.req)
             for (op, inp, exp), m in zip(self.exp, outs):
                 m2 = norm_spec_line(m)
+                if m2.endswith("!unmodelled"):
+                    self.ctx.branch("model:unmodelled")
+                    continue
                 if m2 != exp:
                     self.ctx.disagree(op, inp, exp, m2)
         self.req, self.exp = [], []
